@@ -307,7 +307,16 @@ impl SubRule {
                 ParseElement::Matrix(mods, var) => if !self.context_match_matrix(mods, var, word, pos, item.position)? {
                     return Ok(false) 
                 },
-                ParseElement::Variable(..) => unimplemented!(),
+                // as in input_match_structure
+                ParseElement::Variable(num, mods) => match self.variables.borrow_mut().get(&num.value.parse::<usize>().unwrap()) {
+                    Some(var) => match var {
+                        VarKind::Segment(s) => if self.context_match_ipa(s, mods, word, *pos, item.position)? {
+                            pos.increment(word);
+                        } else { return Ok(false) },
+                        VarKind::Syllable(_) => return Err(RuleRuntimeError::SyllVarInsideStruct(item.position)),
+                    },
+                    None => return Err(RuleRuntimeError::UnknownVariable(num.clone())),
+                },
                 _ => unreachable!()
             }
         }
@@ -367,7 +376,16 @@ impl SubRule {
                     ParseElement::Matrix(mods, var) => if !self.context_match_matrix(mods, var, word, pos, items[*index].position)? {
                         m = false; break;
                     },
-                    ParseElement::Variable(..) => unimplemented!(),
+                    // as in input_match_structure
+                    ParseElement::Variable(num, mods) => match self.variables.borrow_mut().get(&num.value.parse::<usize>().unwrap()) {
+                        Some(var) => match var {
+                            VarKind::Segment(s) => if self.context_match_ipa(s, mods, word, *pos, items[*index].position)? {
+                                pos.increment(word);
+                            } else { m = false; break; },
+                            VarKind::Syllable(_) => return Err(RuleRuntimeError::SyllVarInsideStruct(items[*index].position)),
+                        },
+                        None => return Err(RuleRuntimeError::UnknownVariable(num.clone())),
+                    },
                     _ => unreachable!()
                 }
                 *index += 1;
